@@ -183,6 +183,12 @@ def run (f : List String) : Option String :=
     some (match encode m with
       | .error _ => "enc=panic"
       | .ok d => "enc=" ++ hex d ++ " dec=" ++ showDec (strictDec d))
+  | ["rtp", p, m] => do
+    let p ← unhex p
+    let m ← parseMsg m
+    some (match writeMsg p m with
+      | .error _ => "enc=panic"
+      | .ok full => let d := full.drop p.length; "enc=" ++ hex d ++ " dec=" ++ showDec (strictDec d))
   | ["rta", a] => do
     let a ← parseAvp a
     some (match encodeAvp a with
